@@ -52,8 +52,7 @@ def failure_of(obs_p, obs_s, verdicts, i):
     elif vp in (1, 2):
         out.append(("polars", {"kind": "names" if vp == 1 else "rows",
                                "what": "Polars result differs from the reference semantics"}))
-    if obs_p.columns is not None and obs_p.names is not None and obs_p.columns != obs_p.names:
-        out.append(("polars", {"kind": "names", "what": "columns() differs from the exported column names"}))
+    out.extend(metadata_failures("polars", obs_p))
     if obs_s is None:
         return out
     if obs_s.exc is not None:
@@ -71,8 +70,32 @@ def failure_of(obs_p, obs_s, verdicts, i):
     elif vs in (1, 2):
         out.append(("sqlite", {"kind": "names" if vs == 1 else "rows",
                                "what": "SQLite result differs from the reference semantics"}))
-    if obs_s.columns is not None and obs_s.names is not None and obs_s.columns != obs_s.names:
-        out.append(("sqlite", {"kind": "names", "what": "columns() differs from the exported column names"}))
+    out.extend(metadata_failures("sqlite", obs_s))
+    return out
+
+
+def metadata_failures(b, o):
+    """C11: every metadata accessor agrees with the exported frame (names, order, count)."""
+    out = []
+    if o.names is None or o.columns is None:
+        return out
+    if o.columns != o.names:
+        out.append((b, {"kind": "metadata", "what": f"columns() {o.columns} differs from the exported column names {o.names}"}))
+    m = o.meta or {}
+    if "error" in m:
+        out.append((b, {"kind": "metadata", "exc": "meta", "what": f"metadata accessor raised {m['error']}"}))
+        return out
+    if m:
+        if m["iter"] != o.names:
+            out.append((b, {"kind": "metadata", "what": f"iteration order {m['iter']} differs from the exported names {o.names}"}))
+        elif m["len"] != len(o.names):
+            out.append((b, {"kind": "metadata", "what": f"len(table) = {m['len']} but {len(o.names)} columns are exported"}))
+        elif not m["contains"]:
+            out.append((b, {"kind": "metadata", "what": "`name in table` is false for an exported column"}))
+        elif m["dir"]:
+            out.append((b, {"kind": "metadata", "what": f"dir(table) lacks exported columns {m['dir']}"}))
+        elif m["from_ast"] != o.names:
+            out.append((b, {"kind": "metadata", "what": f"metadata recomputed from the whole pipeline {m['from_ast']} differs from the exported names {o.names}"}))
     return out
 
 
@@ -149,15 +172,18 @@ def run(ctx, res, prop, profile, n_quick=300, n_thorough=4000, probe_ids=(), ext
         sig = (b, f["kind"], f.get("exc"))
         small = cases[i]
         fid = findings.match(small, b, f, listed)
-        if fid is None:
-            try:
-                small = pipecheck.shrink(cases[i], same_failure(cases[i], b, f, ctx.build_ok), budget=40)
-            except Exception:  # noqa: BLE001
-                small = cases[i]
-            fid = findings.match(small, b, f, listed)
         if fid is not None:
             hit[fid] += 1
             continue
+        if sig in seen_sig:
+            continue
+        try:
+            base = same_failure(cases[i], b, f, ctx.build_ok)
+            # never shrink into the region of a listed finding (that would change the subject)
+            small = pipecheck.shrink(cases[i], lambda c: findings.match(c, b, f, listed) is None and base(c),
+                                     budget=40)
+        except Exception:  # noqa: BLE001
+            small = cases[i]
         if sig in seen_sig:
             continue
         seen_sig.add(sig)
